@@ -7,6 +7,8 @@ import (
 	"sort"
 	"strings"
 
+	"github.com/jsightapi/jsight-api-core/core"
+
 	"verif/internal/chk"
 	"verif/internal/dt"
 	"verif/internal/impl"
@@ -20,6 +22,7 @@ import (
 func init() {
 	chk.Register(&chk.Check{ID: "C19", Level: "exploration", Run: runC19})
 	chk.RegisterWorker("c19", workC19)
+	chk.RegisterWorker("c19history", workC19History)
 }
 
 func sch(lines ...string) [][]string { return [][]string{lines} }
@@ -59,8 +62,9 @@ func c19Blocks() map[string][]*dt.Node {
 }
 
 type c19Project struct {
-	Name string
-	P    impl.Project
+	Name    string
+	P       impl.Project
+	Invalid bool // rejected also without bans (malformed instance of the kind): the ban must still win
 }
 
 func c19Projects() []c19Project {
@@ -70,7 +74,7 @@ func c19Projects() []c19Project {
 		l.Only = map[string]bool{}
 		l.Reset()
 		r := dt.Render(f, &l)
-		out = append(out, c19Project{name, project(r)})
+		out = append(out, c19Project{Name: name, P: project(r)})
 	}
 	js := func() *dt.Node { return dt.N("JSIGHT", "0.3") }
 	blocks := c19Blocks()
@@ -145,6 +149,22 @@ func c19Projects() []c19Project {
 	}
 	render("all-kinds/direct", &dt.File{Name: "root.jst", Nodes: append([]*dt.Node{js()}, all...)})
 	render("jsight-only", &dt.File{Name: "root.jst", Nodes: []*dt.Node{js()}})
+	// a malformed instance of every kind (two surplus parameters): the ban is reported where the directive is written,
+	// before anything else about it is judged
+	for _, k := range c19KindNames {
+		kw := k
+		if k == "HTTP-response-code" {
+			kw = "200"
+		}
+		txt := "JSIGHT 0.3\n" + kw + " zz zz\n"
+		if k == "JSIGHT" {
+			txt = "JSIGHT 0.3 0.3\n"
+		}
+		if k == "INCLUDE" {
+			txt = "JSIGHT 0.3\nINCLUDE inc.jst zz\n"
+		}
+		out = append(out, c19Project{Name: k + "/malformed", P: impl.Single(txt), Invalid: true})
+	}
 	// all-kinds with INCLUDE + MACRO + PASTE
 	{
 		var a2 []*dt.Node
@@ -215,7 +235,7 @@ func workC19(w *run.W) {
 		baseObs := "ERR " + base.Err.Tuple()
 		if base.Err == nil {
 			baseObs = impl.ToJson(&base.J).String()
-		} else if w.Shard == 0 {
+		} else if w.Shard == 0 && !pr.Invalid {
 			w.Violation("C19", "harness:project-invalid:"+pr.Name, "check project "+pr.Name+" is not valid without bans: "+base.Err.Msg+"\n"+showProject(pr.P), nil)
 		}
 		present := kindsIn(pr.P)
@@ -285,6 +305,73 @@ func workC19(w *run.W) {
 	}
 }
 
+// workC19History: Option values created once and reused across builds (a build with two options, then builds with each
+// option alone) must behave like freshly created options.
+func workC19History(w *run.W) {
+	dir := workerDir(w)
+	defer os.RemoveAll(dir)
+	blocks := c19Blocks()
+	var idx int64
+	for _, y := range c19KindNames {
+		yk := y
+		if y == "HTTP-response-code" {
+			yk = "CODE"
+		}
+		bl, ok := blocks[yk]
+		if !ok {
+			continue
+		}
+		l := canonGlobal.Layout()
+		l.Only = map[string]bool{}
+		l.Reset()
+		var nodes []*dt.Node
+		nodes = append(nodes, dt.N("JSIGHT", "0.3"))
+		for _, n := range bl {
+			nodes = append(nodes, n.Clone())
+		}
+		pr := project(dt.Render(&dt.File{Name: "root.jst", Nodes: nodes}, &l))
+		present := kindsIn(pr)
+		plain := pr.Build(dir)
+		plainObs := "ERR " + plain.Err.Tuple()
+		if plain.Err == nil {
+			plainObs = impl.ToJson(&plain.J).String()
+		}
+		for _, x := range c19KindNames {
+			if present[x] || x == y {
+				continue
+			}
+			idx++
+			if !w.Mine(idx) || !w.Begin(fmt.Sprintf("history/%s/%s", x, y)) {
+				continue
+			}
+			optX, optY := impl.Banned([]string{x}), impl.Banned([]string{y})
+			for _, order := range [][]int{{0, 1}, {1, 0}} {
+				oo := [][]core.Option{optX, optY}
+				both := append(append([]core.Option{}, oo[order[0]]...), oo[order[1]]...)
+				b1 := pr.Build(dir, both...)
+				w.Count("history_builds", 3)
+				if b1.Err == nil || b1.Err.Msg != "the directive is not allowed ("+y+")" {
+					w.Violation("C19", "history:both-options", fmt.Sprintf("project with %s built with options ban(%s), ban(%s): expected not-allowed(%s), got %s", y, x, y, y, errMsg(b1.Err)), nil)
+				}
+				b2 := pr.Build(dir, optX...)
+				obs := "ERR " + b2.Err.Tuple()
+				if b2.Err == nil {
+					obs = impl.ToJson(&b2.J).String()
+				}
+				if obs != plainObs {
+					w.Violation("C19", "history:option-value-changed-by-earlier-build", fmt.Sprintf("the option value ban(%s), reused after a build that also had ban(%s), now changes a project that contains no %s: %s", x, y, x, firstDiff(obs, plainObs)), map[string]any{"x": x, "y": y})
+				}
+				b3 := pr.Build(dir, optY...)
+				if b3.Err == nil || b3.Err.Msg != "the directive is not allowed ("+y+")" {
+					w.Violation("C19", "history:single-option", fmt.Sprintf("reused option ban(%s): expected not-allowed, got %s", y, errMsg(b3.Err)), nil)
+				}
+			}
+			w.Nontrivial("history", x, y)
+			w.End()
+		}
+	}
+}
+
 func placementOf(name string) string {
 	if i := strings.Index(name, "/"); i >= 0 {
 		return name[i+1:]
@@ -295,8 +382,10 @@ func placementOf(name string) string {
 func runC19(c *chk.Ctx) {
 	r := c.Pool.Run("c19", map[string]any{})
 	c.Merge(r, "configurations")
+	r2 := c.Pool.Run("c19history", map[string]any{})
+	c.Merge(r2, "history_builds")
 	c.Cov["banned_sets"] = 1 + 31 + 465
-	c.Cov["rule"] = "all banned sets of size 0, 1, 2 over the 31 directive kinds (497) x a project set holding, for every kind, a minimal valid project with the kind written directly / inside an INCLUDEd file / inside a pasted MACRO body / inside an unpasted MACRO body, plus all-kinds projects and a JSIGHT-only project. A banned kind occurs => rejected with 'the directive is not allowed (K)' located on a directive of kind K; none occurs => the observation (catalog bytes or error tuple) equals the build without the option. non-trivial = distinct (project, banned set)"
+	c.Cov["rule"] = "all banned sets of size 0, 1, 2 over the 31 directive kinds (497) x a project set holding, for every kind, a minimal valid project with the kind written directly / inside an INCLUDEd file / inside a pasted MACRO body / inside an unpasted MACRO body, plus all-kinds projects, a JSIGHT-only project and a malformed instance of every kind (the ban must win over any other complaint about the directive). Histories: for every ordered pair of kinds (X, Y) the option values ban(X), ban(Y) are created once and reused: build with both, then with each alone. A banned kind occurs => rejected with 'the directive is not allowed (K)' located on a directive of kind K; none occurs => the observation (catalog bytes or error tuple) equals the build without the option. non-trivial = distinct (project, banned set)"
 	c.Cov["exhaustive"] = true
 	_ = json.Marshal
 }
